@@ -571,6 +571,82 @@ theorem nameless_relabel (t : Term Name) (h : scopeOk [] t = true) : nameless (r
   simp only [nameless]
   rw [h1, h2]
 
+-- ------------------------------------------------------------------ global bijection ⇒ scope consistency
+theorem idx_of_bijective (A : List Name)
+    (H : ∀ n ∈ A, ∀ m ∈ A, (n.text = m.text ↔ n.unique = m.unique)) (n : Name) (hn : n ∈ A) :
+    ∀ env : List Name, (∀ m ∈ env, m ∈ A) →
+      idxOf (nameChars n) (env.map nameChars) = idxOf n.unique (env.map (·.unique)) := by
+  intro env
+  induction env with
+  | nil => intro _; rfl
+  | cons m env ih =>
+    intro henv
+    have hm : m ∈ A := henv m (by simp)
+    have ih' := ih (fun x hx => henv x (by simp [hx]))
+    have hb := H n hn m hm
+    simp only [List.map_cons, idxOf]
+    by_cases ht : nameChars n = nameChars m
+    · have : n.text = m.text := String.toList_inj.1 ht
+      simp [ht, hb.1 this]
+    · have h1 : ¬ n.text = m.text := fun e => ht (by simp [nameChars, e])
+      have h2 : ¬ n.unique = m.unique := fun e => h1 (hb.2 e)
+      simp [ht, h2, ih']
+
+mutual
+  theorem scopeOk_of_bijective (A : List Name)
+      (H : ∀ n ∈ A, ∀ m ∈ A, (n.text = m.text ↔ n.unique = m.unique)) :
+      (t : Term Name) → ∀ env : List Name, (∀ m ∈ env, m ∈ A) → (∀ n ∈ names t, n ∈ A) → scopeOk env t = true
+    | .var n => by
+      intro env henv ht
+      simp [names] at ht
+      simp [scopeOk, idx_of_bijective A H n ht env henv]
+    | .lam n b => by
+      intro env henv ht
+      simp [names] at ht
+      simp only [scopeOk]
+      exact scopeOk_of_bijective A H b (n :: env)
+        (by intro m hm; simp at hm; rcases hm with rfl | hm; exact ht.1; exact henv m hm) ht.2
+    | .app f a => by
+      intro env henv ht
+      simp [names] at ht
+      simp [scopeOk, scopeOk_of_bijective A H f env henv (fun n hn => ht n (Or.inl hn)),
+        scopeOk_of_bijective A H a env henv (fun n hn => ht n (Or.inr hn))]
+    | .delay t => by
+      intro env henv ht
+      simp only [names] at ht
+      simpa [scopeOk] using scopeOk_of_bijective A H t env henv ht
+    | .force t => by
+      intro env henv ht
+      simp only [names] at ht
+      simpa [scopeOk] using scopeOk_of_bijective A H t env henv ht
+    | .error => by intros; rfl
+    | .builtin _ => by intros; rfl
+    | .const _ => by intros; rfl
+    | .constr _ fs => by
+      intro env henv ht
+      simp only [names] at ht
+      simpa [scopeOk] using scopeOkList_of_bijective A H fs env henv ht
+    | .case s bs => by
+      intro env henv ht
+      simp [names] at ht
+      simp [scopeOk, scopeOk_of_bijective A H s env henv (fun n hn => ht n (Or.inl hn)),
+        scopeOkList_of_bijective A H bs env henv (fun n hn => ht n (Or.inr hn))]
+  theorem scopeOkList_of_bijective (A : List Name)
+      (H : ∀ n ∈ A, ∀ m ∈ A, (n.text = m.text ↔ n.unique = m.unique)) :
+      (ts : List (Term Name)) → ∀ env : List Name, (∀ m ∈ env, m ∈ A) → (∀ n ∈ namesList ts, n ∈ A) →
+        scopeOkList env ts = true
+    | [] => by intros; rfl
+    | t :: ts => by
+      intro env henv ht
+      simp [namesList] at ht
+      simp [scopeOkList, scopeOk_of_bijective A H t env henv (fun n hn => ht n (Or.inl hn)),
+        scopeOkList_of_bijective A H ts env henv (fun n hn => ht n (Or.inr hn))]
+end
+
+theorem namesConsistent_of_bijective (p : Program Name) (h : namesBijective p = true) : namesConsistent p = true := by
+  simp [namesBijective] at h
+  exact scopeOk_of_bijective (names p.term) h p.term [] (by simp) (fun n hn => hn)
+
 -- ------------------------------------------------------------------ printable; printing ignores uniques
 mutual
   theorem constPrintable_of_ok : (c : Const) → ∀ t, constOk t c = true → constPrintable c = true
